@@ -12,6 +12,7 @@ checks by self-composition that text+overrides and the edited text have the
 same outcome (TwinSameOutcome); both are then executed on the real code.
 """
 import random
+import zlib
 
 from .. import project, refconv, scenario, schemas, textgen
 from ..textgen import Line
@@ -179,6 +180,22 @@ def compare(ws, sch, rec, item, emit):
         got2, _ = scenario.run_real(ws, sch, rec, sc.items[item["twin"]])
         if not same(got, got2):
             why = "override-differs-from-edit"
+    if why is None and item["opts"] and zlib.crc32(repr(item["opts"]).encode()) % 3 == 0:
+        # one extended loader holding the overrides serves two loads (a reload): both are the edited text's outcome
+        from ZConfig.cmdline import ExtendedConfigLoader
+        try:
+            ld = ExtendedConfigLoader(sch)
+            for o in item["opts"]:
+                ld.addOption(o)
+        except Exception:
+            ld = None       # a specifier refused when it is added: covered by the one-shot entry point above
+        if ld is not None:
+            for k in (1, 2):
+                gk = scenario.run_real_again(ws, sch, rec, item, ld)
+                if not same(got, gk):
+                    why = "override-differs-on-load-%d-through-one-loader" % k
+                    got = gk
+                    break
     if why is None:
         return None
     return {"clause": why, "observed": got,
